@@ -425,47 +425,69 @@ func c16ToError(h *H) {
 	FT := w.Type().In(1)
 	sc := h.Sc
 	nin, nout := FT.NumIn(), FT.NumOut()
-	for _, success := range []bool{true, false} {
+	// every sequence of up to three calls of ONE derived function, f reporting true or
+	// false in each (a derived function that is kept and called again is the normal use)
+	var seqs [][]bool
+	for l := 1; l <= 3; l++ {
+		for m := 0; m < 1<<uint(l); m++ {
+			q := make([]bool, l)
+			for k := range q {
+				q[k] = m&(1<<uint(k)) != 0
+			}
+			seqs = append(seqs, q)
+		}
+	}
+	for _, seq := range seqs {
 		for _, inj := range injected {
 			calls := 0
+			success := false
 			var got []string
 			outs := make([]reflect.Value, nout)
-			for j := 0; j < nout-1; j++ {
-				outs[j] = argFor(FT.Out(j), j, 1, sc)
-			}
-			outs[nout-1] = reflect.ValueOf(success)
 			f := reflect.MakeFunc(FT, func(a []reflect.Value) []reflect.Value {
 				calls++
 				got = canons(a)
+				for j := 0; j < nout-1; j++ {
+					outs[j] = argFor(FT.Out(j), j+calls, 1, sc)
+				}
+				outs[nout-1] = reflect.ValueOf(success)
 				return outs
 			})
-			in := make([]reflect.Value, nin)
-			for j := range in {
-				in[j] = argFor(FT.In(j), 4+j, 1, sc)
-			}
-			h.St.States++
-			h.St.Evals++
 			r, pan := Call(w, errVal(inj), f)
-			var res []reflect.Value
-			if pan == "" {
-				res, pan = Call(dyn(r[0]), in...)
-			}
 			if pan != "" {
 				h.bad16("panics", pan)
 				continue
 			}
-			n := len(res) - 1
-			switch {
-			case calls != 1 || !eqStrs(got, canons(in)):
-				h.bad16("stage-order", fmt.Sprintf("f called %d times / with other arguments", calls))
-			case !eqStrs(canons(res[:n]), canons(outs[:nout-1])):
-				h.bad16("wrong-result", "the other results of f are not passed through")
-			case success && !res[n].IsNil():
-				h.bad16("wrong-error", "f reported true but the error is not nil")
-			case !success && !sameErr(res[n], inj):
-				h.bad16("wrong-error", "f reported false but the supplied error is not returned")
+			for k, sv := range seq {
+				success = sv
+				in := make([]reflect.Value, nin)
+				for j := range in {
+					in[j] = argFor(FT.In(j), 4+j+k, 1, sc)
+				}
+				h.St.States++
+				h.St.Evals++
+				before := calls
+				res, pan := Call(dyn(r[0]), in...)
+				if pan != "" {
+					h.bad16("panics", pan)
+					break
+				}
+				n := len(res) - 1
+				where := ""
+				if k > 0 {
+					where = fmt.Sprintf(" (call %d of the same derived function, earlier answers of f: %v)", k+1, seq[:k])
+				}
+				switch {
+				case calls != before+1 || !eqStrs(got, canons(in)):
+					h.bad16("stage-order", fmt.Sprintf("f called %d times / with other arguments%s", calls-before, where))
+				case !eqStrs(canons(res[:n]), canons(outs[:nout-1])):
+					h.bad16("wrong-result", "the other results of f are not passed through"+where)
+				case sv && !res[n].IsNil():
+					h.bad16("wrong-error", "f reported true but the error is not nil"+where)
+				case !sv && !sameErr(res[n], inj):
+					h.bad16("wrong-error", "f reported false but the supplied error is not returned"+where)
+				}
+				h.St.Nontriv++
 			}
-			h.St.Nontriv++
 		}
 	}
 	h.Outcome("toerror")
